@@ -2,7 +2,7 @@
 import os
 
 HERE = os.path.dirname(os.path.abspath(__file__))
-DEFAULT = dict(Stacks="StacksAll", Outcomes="Out13", TagOps="TagOps2", Times='{"1", "2"}', MaxCalls=8, MaxTests=2, MaxRuns=1,
+DEFAULT = dict(Stacks="StacksAll", Outcomes="Out13", TagOps="TagOps2", Times='{"1", "2"}', MaxCalls=8, MaxTests=2, MaxRuns=1, MaxIds=9,
                MaxTagOps=0, MaxTimes=0, AllowStop="FALSE", AllowSetFF="FALSE", AllowSkipNoStart="FALSE", AllowDone="FALSE",
                AllowProgress="FALSE", PreFF="{FALSE}", Coded="{}")
 INVS = ("Verdict", "TagsScoped", "TagsObserved", "ExactlyOnce", "NoUpgrade")
@@ -16,7 +16,7 @@ def cfg(name, mode, **kw):
     lines = ["SPECIFICATION Spec", "CONSTANTS"]
     for k in ("Stacks", "Outcomes", "TagOps"):
         lines.append("  %s <- %s" % (k, d[k]))
-    for k in ("Times", "MaxCalls", "MaxTests", "MaxRuns", "MaxTagOps", "MaxTimes", "AllowStop", "AllowSetFF", "AllowSkipNoStart",
+    for k in ("Times", "MaxCalls", "MaxTests", "MaxRuns", "MaxTagOps", "MaxTimes", "MaxIds", "AllowStop", "AllowSetFF", "AllowSkipNoStart",
               "AllowDone", "AllowProgress", "PreFF", "Coded"):
         lines.append("  %s = %s" % (k, d[k]))
     if mode in ("exp", "sim"):
@@ -38,9 +38,9 @@ cfg("rs_expA.cfg", "exp")
 cfg("rs_expA0.cfg", "exp", Outcomes="OutFalsy")
 # tags() inside a test followed by another test, on every stack with a TestByTestResult leaf (the callback carries the test's tags)
 cfg("rs_expA1.cfg", "exp", Stacks="StacksByTest", Outcomes="Out1", TagOps="TagOps2", MaxTagOps=2, MaxCalls=10)
-cfg("rs_expB.cfg", "exp", Stacks="StacksTimes", Outcomes="Out1", MaxTests=1, MaxTimes=2, MaxCalls=9, AllowDone="TRUE", AllowProgress="TRUE")
-cfg("rs_expB3.cfg", "exp", Stacks="StacksTimes", Outcomes="Out1", MaxTests=1, MaxTimes=3, MaxCalls=9, AllowDone="TRUE", AllowProgress="TRUE")
-cfg("rs_expB2.cfg", "exp", Stacks="StacksTimes", Outcomes="Out2", MaxTests=2, MaxTimes=2, MaxCalls=10, AllowDone="TRUE", AllowProgress="TRUE")
+cfg("rs_expB.cfg", "exp", Times='{"1", "none"}', Stacks="StacksTimes", Outcomes="Out1", MaxTests=1, MaxTimes=2, MaxCalls=9, AllowDone="TRUE", AllowProgress="TRUE")
+cfg("rs_expB3.cfg", "exp", Times='{"1", "2", "none"}', Stacks="StacksTimes", Outcomes="Out1", MaxTests=1, MaxTimes=3, MaxCalls=9, AllowDone="TRUE", AllowProgress="TRUE")
+cfg("rs_expB2.cfg", "exp", Times='{"1", "none"}', Stacks="StacksTimes", Outcomes="Out2", MaxTests=2, MaxTimes=2, MaxCalls=10, AllowDone="TRUE", AllowProgress="TRUE")
 cfg("rs_mcA3all.cfg", "mc", Outcomes="Out13", MaxTests=3, MaxCalls=11)
 cfg("rs_mcAq.cfg", "mc", Stacks="StacksCore", Outcomes="Out6", MaxTests=3, MaxCalls=11)
 cfg("rs_mcA3.cfg", "mc", Stacks="StacksCore", Outcomes="Out13", MaxTests=3, MaxCalls=11)
@@ -48,6 +48,8 @@ cfg("rs_mcA3.cfg", "mc", Stacks="StacksCore", Outcomes="Out13", MaxTests=3, MaxC
 cfg("rs_expC1.cfg", "exp", Outcomes="Out4", AllowStop="TRUE", PreFF=BOTH, MaxCalls=9)
 cfg("rs_expC2.cfg", "exp", Stacks="StacksSetFF", Outcomes="Out3", AllowSetFF="TRUE", MaxCalls=9)
 cfg("rs_expC3.cfg", "exp", Outcomes="Out2", MaxRuns=2, PreFF=BOTH, MaxCalls=10)
+# the same test listed twice and failing each time: one test id, several problems (summary total = number of problems)
+cfg("rs_expP1.cfg", "exp", Stacks="StacksText", Outcomes="Out4", PreFF=BOTH, MaxTests=3, MaxIds=1, MaxCalls=11)
 cfg("rs_expP.cfg", "exp", Stacks="StText", Outcomes="Out6", PreFF=BOTH, MaxTests=3, MaxCalls=11)
 cfg("rs_expC4.cfg", "exp", Outcomes="Out6", AllowStop="TRUE", PreFF=BOTH, MaxTests=2, MaxRuns=2, MaxCalls=10)
 cfg("rs_mcC.cfg", "mc", Stacks="StacksCore", Outcomes="Out4", AllowStop="TRUE", AllowSetFF="TRUE", PreFF=BOTH, MaxRuns=2, MaxCalls=11)
@@ -59,9 +61,9 @@ cfg("rs_expT4.cfg", "exp", Stacks="StacksTags", Outcomes="Out1", TagOps="TagOps4
 cfg("rs_expT5.cfg", "exp", Stacks="StacksTags", Outcomes="Out1", TagOps="TagOps2", MaxTagOps=2, MaxTests=2, MaxRuns=2, MaxCalls=11)
 cfg("rs_mcT.cfg", "mc", Stacks="StacksCore", Outcomes="Out1", TagOps="TagOps4", MaxTagOps=3, MaxCalls=10, AllowSkipNoStart="TRUE")
 # --- deep random behaviours over the full alphabet ---------------------------------------------------------
-cfg("rs_sim.cfg", "sim", Outcomes="Out20", TagOps="TagOpsAll", MaxCalls=24, MaxTests=4, MaxRuns=2, MaxTagOps=5, MaxTimes=4,
+cfg("rs_sim.cfg", "sim", Times='{"1", "2", "none"}', Outcomes="Out20", TagOps="TagOpsAll", MaxCalls=24, MaxTests=4, MaxRuns=2, MaxTagOps=5, MaxTimes=4,
     AllowStop="TRUE", AllowDone="TRUE", AllowProgress="TRUE", PreFF=BOTH)
-cfg("rs_sim13.cfg", "sim", Outcomes="Out13", TagOps="TagOpsAll", MaxCalls=24, MaxTests=4, MaxRuns=2, MaxTagOps=5, MaxTimes=4,
+cfg("rs_sim13.cfg", "sim", Times='{"1", "2", "none"}', Outcomes="Out13", TagOps="TagOpsAll", MaxCalls=24, MaxTests=4, MaxRuns=2, MaxTagOps=5, MaxTimes=4,
     AllowStop="TRUE", AllowDone="TRUE", AllowProgress="TRUE", PreFF=BOTH)
 cfg("rs_simFF.cfg", "sim", Stacks="StacksSetFF", Outcomes="Out13", TagOps="TagOps4", MaxCalls=20, MaxTests=4, MaxRuns=2, MaxTagOps=2,
     MaxTimes=2, AllowStop="TRUE", AllowSetFF="TRUE")
